@@ -120,7 +120,7 @@ pub fn run_stacks<T: Cat + DecodeLimit>(ctx: &mut Ctx, name: &str, bs: &[u8], se
 		let r = T::decode(&mut c2);
 		(r, io.0.position() as usize)
 	}))));
-	#[cfg(feature = "full")]
+	#[cfg(feature = "bytes-f")]
 	{
 		// the shared byte buffer: value only (the cursor is private), consumption is not observable
 		let r = catch_unwind(AssertUnwindSafe(|| parity_scale_codec::decode_from_bytes::<T>(bytes::Bytes::copy_from_slice(bs))));
